@@ -180,6 +180,25 @@ pub fn run(opts: &Opts) -> i32 {
         ] {
             probes.push((name.to_string(), format!("{pre}begin\n  {body}\nend\n"), ok));
         }
+        // an existential witness must not leave the scope of the pattern that opened its package,
+        // wherever in a tuple pattern the package sits
+        let pack = "let Zbool = data | +True : Unit | +False : Unit end that\n  let Zbox = exists (X : VType) . X * (X -> Thk (Ret Int64)) that\n  def ints : Zbox = (Int64, (41 : Int64), fn (x : Int64) => { ! (int64/add) x (1 : Int64) }) that\n  def bools : Zbox = (Zbool, +True(), fn (b : Zbool) => { match b | +True() => ret (0 : Int64) | +False() => ret (1 : Int64) end }) that";
+        for (position, pattern, ty, a1, a2) in [
+            ("first-of-two", "((X, v, k), _)", "Zbox * Unit", "(ints, ())", "(bools, ())"),
+            ("last-of-two", "(_, (X, v, k))", "Unit * Zbox", "((), ints)", "((), bools)"),
+            ("middle-of-three", "(_, (X, v, k), _)", "Unit * Zbox * Unit", "((), ints, ())", "((), bools, ())"),
+            ("first-of-three", "((X, v, k), _, _)", "Zbox * Unit * Unit", "(ints, (), ())", "(bools, (), ())"),
+            ("alone", "(X, v, k)", "Zbox", "ints", "bools"),
+        ] {
+            let body = format!("{pack}\n  let open = fn ({pattern} : {ty}) => (v, k) that\n  let (v1, k1) = open {a1} that\n  let (v2, k2) = open {a2} that\n  do r <- ! (k1 v2);\n  ! (process/exit) r");
+            probes.push((format!("existential-witness-escapes package-{position}"), format!("{pre}begin\n  {body}\nend\n"), false));
+            // control (for the package on its own; what a pure function may do with a package opened
+            // inside a larger tuple pattern is not something these probes take a position on)
+            if position == "alone" {
+                let body = format!("{pack}\n  let use = fn ({pattern} : {ty}) => k v that\n  do r <- ! (use {a1});\n  ! (process/exit) r");
+                probes.push((format!("existential-witness-stays-inside package-{position}"), format!("{pre}begin\n  {body}\nend\n"), true));
+            }
+        }
         let mut session = CompilerSession::default();
         for (name, text, must_accept) in probes {
             let path = opts.out.join("probe-synthesis.zy");
